@@ -52,6 +52,13 @@ func init() {
 					items = append(items, Item{ID: fmt.Sprintf("stream:%s/n=%d", sv.Alg, n), Run: func(c *Ctx) { c14stream(c, sv, n) }})
 				}
 				items = append(items, Item{ID: "lemmas:" + sv.Alg, Run: func(c *Ctx) { c14lemmas(c, sv) }})
+				if sv.Kind == "sum" {
+					// long inputs made of a repeated 4-byte symbolic pattern: accumulator width, lane and carry effects
+					for _, n := range []int{300, 700, 5000} {
+						n := n
+						items = append(items, Item{ID: fmt.Sprintf("pattern:%s/n=%d", sv.Alg, n), Run: func(c *Ctx) { c14pattern(c, sv, n) }})
+					}
+				}
 				items = append(items, Item{ID: "checkvalue:" + sv.Alg, Run: func(c *Ctx) { c14checkValue(c, sv) }})
 			}
 			return items
@@ -427,5 +434,63 @@ func c14crc32Arg(c *Ctx, sv svcSpec, fn *ssa.Function, T types.Type) {
 		b := fs.heap[bufID]
 		c.Prove(fs, "buffer-untouched", And(Eq(b.R, CI(1)), Eq(b.B.Len, Add(t.S.Len, CI(1)))), nil)
 		c.Witness(fs, "crc32 argument", nil)
+	}
+}
+
+// c14pattern: the real Calc on n bytes that repeat a 4-byte symbolic pattern (b0 b1 b2 b3 b0 ...), against the
+// 8-bit reference sum. One query covers all 2^32 patterns at that length.
+func c14pattern(c *Ctx, sv svcSpec, n int) {
+	e := c.e()
+	fn, T := c.calcFn(sv)
+	if fn == nil {
+		c.Inconclusive("Calc of " + sv.Name + " not found")
+		return
+	}
+	s := c.w.newState()
+	pat := []*Term{e.freshVar("p0", 8), e.freshVar("p1", 8), e.freshVar("p2", 8), e.freshVar("p3", 8)}
+	data := make([]*Term, n)
+	for i := range data {
+		data[i] = pat[i%4]
+	}
+	bufID := s.newObj(&Obj{Kind: kBuffer, B: VecBytes(data), R: CI(0)})
+	recv := &Ptr{Obj: s.newObj(&Obj{Kind: kCell, Val: e.zero(T)})}
+	oldU := e.unroll
+	e.unroll = n + 8
+	defer func() { e.unroll = oldU }()
+	rw, signed, _ := width(fn.Signature.Results().At(0).Type())
+	// reference: (k0*b0 + k1*b1 + k2*b2 + k3*b3) mod 256 with the multiplicities of each pattern position
+	want := C(8, 0)
+	for j := 0; j < 4; j++ {
+		k := (n - j + 3) / 4
+		want = Add(want, Mul(C(8, uint64(k)), pat[j]))
+	}
+	wantW := ZExt(want, rw)
+	steps := func(val func(*Term) uint64) []map[string]any {
+		bs := make([]byte, n)
+		for i := range bs {
+			bs[i] = byte(val(pat[i%4]))
+		}
+		return []map[string]any{step("op", "newbuf", "buf", "b", "hex", hexOf(bs)), step("op", "calc", "alg", sv.Alg, "buf", "b")}
+	}
+	e.pushCall(s, fn, []Value{recv, &Ptr{Obj: bufID}}, nil)
+	for _, fs := range e.Run(s) {
+		if c.PathProblem(fs, "Calc", func(val func(*Term) uint64, msg string) *Violation {
+			return &Violation{Obligation: "no-panic", Detail: sv.Alg + " Calc panics: " + msg, Replay: &ReplayReq{Steps: steps(val), Judge: Judge{Kind: "panic"}}}
+		}) {
+			continue
+		}
+		got := fs.ret.(*Term)
+		c.Prove(fs, "equals-reference", Eq(got, wantW), func(val func(*Term) uint64) *Violation {
+			w := val(wantW)
+			exp := fmt.Sprint(w)
+			if signed {
+				exp = fmt.Sprint(sext(w, rw))
+			}
+			return &Violation{Detail: fmt.Sprintf("%s over %d bytes repeating the pattern %02x %02x %02x %02x is %d, reference %d", sv.Alg, n, val(pat[0]), val(pat[1]), val(pat[2]), val(pat[3]), sext(val(got), rw), w),
+				Replay: &ReplayReq{Steps: steps(val), Judge: Judge{Kind: "ret_ne", Step: 1, ExpectRet: exp}}}
+		})
+		c.Witness(fs, "pattern", func(val func(*Term) uint64) any {
+			return map[string]any{"alg": sv.Alg, "n": n, "pattern": fmt.Sprintf("%02x%02x%02x%02x", val(pat[0]), val(pat[1]), val(pat[2]), val(pat[3]))}
+		})
 	}
 }
